@@ -9,6 +9,11 @@ RULE = ("every labelled DAG(n), n<=4 quick / n<=5 thorough, each under the given
         "pre-existing 'order'/'label' attributes with arbitrary values incl. the EDGELABELS members); "
         "a retmut stream (the returned CPDAG is edited in place — orient / remove edge / remove node — and an equal fresh DAG is "
         "converted again) and a label-family stream (str/tuple/bigint/frozenset/int257: equal but not identical label objects); "
+        "an input-kind stream (nx.freeze-d DiGraph, G.subgraph / nx.subgraph_view views hiding a surplus node or edge, a DiGraph "
+        "subclass: same expected result; the input's nodes, edges and all attributes other than the edge attributes 'order' and "
+        "'label' — the only things HEAD writes — must be unchanged); attrs now include weight 0/None/nan/negative; identity-hashed "
+        "('obj') and mixed labels; 300 dense (p=0.7-0.9) 6-8 node DAGs; 6 long DAGs (150-220 nodes: chain / ladder / collider chain "
+        "+ side branches) run with the recursion limit lowered to depth+120 (HEAD is iterative); "
         "the model is run at networkx's actual topological order of the very DiGraph handed to the code; brute-force "
         "oracle (all orientations of the skeleton) when |E|<=12 (random cases of the quick tier: |E|<=9). distinct by canonical DAG; non-trivial = the CPDAG has "
         "both a directed and an undirected edge, or an isolated node")
@@ -40,7 +45,29 @@ LEVEL_NOTE = ("Chickering's correctness proof for Algorithm 5 beyond v-structure
               "implementation is tied to the model at networkx's actual topological order of the very DiGraph it receives.")
 
 
-LAB_FAMILIES = ["str", "tuple", "bigint", "frozenset", "int257"]
+LAB_FAMILIES = ["str", "tuple", "bigint", "frozenset", "int257", "obj", "mixed"]
+
+
+def long_dag(rng, n):
+    """a long DAG the algorithm has to walk end to end: chain / ladder / chain of colliders, with a few side branches"""
+    shape = rng.choice(["chain", "ladder", "colliders"])
+    D = []
+    if shape == "chain":
+        D = [[i, i + 1] for i in range(n - 1)]
+    elif shape == "ladder":
+        for i in range(0, n - 2, 2):
+            D += [[i, i + 2], [i + 1, i + 3] if i + 3 < n else [i, i + 1], [i, i + 1]]
+    else:
+        for i in range(0, n - 2, 2):
+            D += [[i, i + 1], [i + 2, i + 1]]
+    D = [list(e) for e in {tuple(e) for e in D} if e[1] < n]
+    for _ in range(5):
+        a = rng.randrange(n - 1)
+        b = rng.randrange(a + 1, n)
+        if [a, b] not in D and [b, a] not in D and gr.is_acyclic(n, D + [[a, b]]):
+            D.append([a, b])
+    rng.shuffle(D)
+    return gr.G(range(n), D=D)
 
 
 def _maybe_orders(g, tag):
@@ -125,6 +152,31 @@ def gen_cases(tier, rng):
                 yield {"kind": "retmut%d" % n, "g": g, "retmut": rng.randint(0, 10 ** 6)}
             if n < 4 or i % 3 == 1:
                 yield {"kind": "lab%d" % n, "g": g, "_lab": LAB_FAMILIES[i % len(LAB_FAMILIES)]}
+    # input object kinds: frozen DiGraph, subgraph views hiding a surplus node / edge, a DiGraph subclass
+    i = 0
+    for n in range(1, 5):
+        for g in gr.enum_dag(n):
+            i += 1
+            if n < 4 or i % 2 == 0:
+                c = {"kind": "input%d" % n, "g": g, "input": INPUT_KINDS[i % len(INPUT_KINDS)]}
+                if i % 3 == 0:
+                    c["attrs"] = rng.randint(0, 10 ** 6)
+                if i % 7 == 0:
+                    c["_lab"] = LAB_FAMILIES[i % len(LAB_FAMILIES)]
+                yield c
+    # dense 6-8 node DAGs; long DAGs under a lowered recursion limit (HEAD is iterative throughout)
+    for i in range(300 if tier == "quick" else 1500):
+        c = {"kind": "dense", "g": random_dag(rng, rng.randint(6, 8), rng.choice([0.7, 0.8, 0.9])), "orc": 9}
+        r = rng.random()
+        if r < 0.15:
+            c["input"] = rng.choice(INPUT_KINDS)
+        elif r < 0.3:
+            c["attrs"] = rng.randint(0, 10 ** 6)
+        elif r < 0.4:
+            c["_lab"] = rng.choice(LAB_FAMILIES)
+        yield c
+    for i in range(6 if tier == "quick" else 20):
+        yield {"kind": "deep", "g": long_dag(rng, rng.randint(150, 220)), "orc": -1, "_reclimit": 120}
     nr = 400 if tier == "quick" else 4000
     for i in range(nr):
         n = rng.randint(5, 9 if tier == "quick" else 12)
@@ -171,6 +223,11 @@ def decorate(Dg, seed):
         for name in ("order", "label"):
             if r.random() < 0.7:
                 Dg[u][v][name] = _attr_value(r)
+        # attribute names networkx helpers give a meaning to: an edge with weight 0 / None / nan is still an edge
+        if r.random() < 0.7:
+            Dg[u][v]["weight"] = r.choice([0, 0, 0.0, -1, None, float("nan"), False, 2.5])
+        if r.random() < 0.2:
+            Dg[u][v][r.choice(["capacity", "directed", "compelled", "reversible"])] = r.choice([0, None, "x"])
     for n in Dg.nodes:
         for name in ("order", "label"):
             if r.random() < 0.3:
@@ -199,6 +256,59 @@ def mutate_returned(C, seed):
         C.remove_node(r.choice(nodes))
 
 
+INPUT_KINDS = ["frozen", "subgraph", "subgraph_view", "edge_view", "subclass"]
+
+
+def wrap_input(case, g0, lab):
+    """the object handed to the code for case["input"]: a frozen DiGraph, views that hide a surplus node / edge of a larger
+    graph (read-only structure, shared attribute dicts), or a DiGraph subclass.  Returns the object representing g0."""
+    import networkx as nx
+    kind = case.get("input")
+    n = len(g0["V"])
+    extra_node = max(g0["V"], default=-1) + 1
+    if kind == "subclass":
+        class MyDiGraph(nx.DiGraph):
+            pass
+        base = MyDiGraph()
+    else:
+        base = nx.DiGraph()
+    for v in gr.ordered(case, g0["V"], "V"):
+        base.add_node(lab(v))
+    for a, b in gr.ordered(case, g0["D"], "E"):
+        base.add_edge(lab(a), lab(b))
+    if kind in ("subgraph", "subgraph_view"):
+        x = lab(extra_node)
+        base.add_node(x)
+        for v in g0["V"][: max(1, n // 2)]:
+            base.add_edge(x, lab(v))
+        for v in g0["V"][max(1, n // 2):]:
+            base.add_edge(lab(v), x)      # may even close a cycle through x: x is hidden
+        keep = [lab(v) for v in g0["V"]]
+        if kind == "subgraph":
+            return base.subgraph(keep)
+        return nx.subgraph_view(base, filter_node=lambda nd: nd is not x and nd != x)
+    if kind == "edge_view":
+        order = list(nx.topological_sort(base))
+        cand = [(order[i], order[j]) for i in range(len(order)) for j in range(i + 1, len(order))
+                if not base.has_edge(order[i], order[j])]
+        if cand:
+            hide = cand[len(cand) // 2]
+            base.add_edge(*hide)
+            return nx.subgraph_view(base, filter_edge=lambda u, v: (u, v) != hide)
+        return nx.subgraph_view(base)
+    if kind == "frozen":
+        return nx.freeze(base)
+    return base
+
+
+def structure(Dg):
+    """what dag_to_cpdag must leave alone: nodes, edges and every attribute except the two it documents writing
+    (edge attributes 'order' and 'label')"""
+    return (sorted((repr(n), repr(sorted(d.items(), key=repr))) for n, d in Dg.nodes(data=True)),
+            sorted((repr(u), repr(v), repr(sorted(((k, x) for k, x in d.items() if k not in ("order", "label")), key=repr)))
+                   for u, v, d in Dg.edges(data=True)), repr(sorted(Dg.graph.items(), key=repr)))
+
+
 def build(case, first_call=None):
     """the DiGraph handed to the code.  case["drop"]: edges of g added only AFTER a first call; case["extra"]: edges
     present at the first call and removed before the second; case["attrs"]: seed of pre-existing attributes.
@@ -208,6 +318,12 @@ def build(case, first_call=None):
     drop = [list(e) for e in case.get("drop", [])]
     extra = [list(e) for e in case.get("extra", [])]
     g0 = dict(g, D=[e for e in g["D"] if e not in drop] + extra)
+    if case.get("input"):
+        lab, inv = gr.labeler(case)
+        Dg = wrap_input(case, g0, lab)
+        if case.get("attrs") is not None:
+            decorate(Dg, case["attrs"])
+        return Dg, lab, inv
     Dg, lab, inv = gr.to_digraph(g0, case)
     if case.get("attrs") is not None:
         decorate(Dg, case["attrs"])
@@ -247,7 +363,10 @@ def run_impl(case):
         # the caller edits the RETURNED CPDAG in place, then converts an equal fresh DAG: the second result is judged
         mutate_returned(dag_to_cpdag(Dg), case["retmut"])
         Dg, lab, inv = build(case)
+    before = structure(Dg)
     C = dag_to_cpdag(Dg)
+    if structure(Dg) != before:
+        return {"input_changed": True}
     return {"nodes": sorted(inv(v) for v in C.nodes),
             "directed": sorted([inv(a), inv(b)] for a, b in C.directed_edges),
             "undirected": sorted(sorted((inv(a), inv(b))) for a, b in C.undirected_edges),
@@ -262,6 +381,8 @@ def compare(case, impl, model):
         return "model-vs-oracle"
     if "exc" in impl:
         return "exception"
+    if impl.get("input_changed"):
+        return "input-changed"
     if impl["nodes"] != model["nodes"]:
         return "nodes"
     if impl["directed"] != model["directed"]:
@@ -280,7 +401,7 @@ def nontrivial(case, model):
 
 def key(case):
     return (gr.canon(case["g"]), tuple(map(tuple, case.get("drop", []))), tuple(map(tuple, case.get("extra", []))),
-            case.get("attrs"), case.get("retmut"), case.get("_lab"))
+            case.get("attrs"), case.get("retmut"), case.get("_lab"), case.get("input"))
 
 
 def classify(case, impl, model):
